@@ -268,11 +268,11 @@ let print_kprog (p : kprog) : string =
           | KArr, _ -> pe env e ^ "[0]"
           | _ -> pe env e in
         line ("println( " ^ String.concat " , " (List.map one args) ^ " ) ;") in
-  let pparam pa =
+  let pparam defs pa =
     ktype pa.kpk ^ " " ^ kvar pa.kpn ^
-    (match pa.kpd with Some z -> " = " ^ pe (Hashtbl.create 1) (match pa.kpk with KLong | KInt -> KNum z | k -> KLit (k, z)) | None -> "") in
-  let sig_of fd = let ps_ = if fd.kfmeth then List.tl fd.kfparams else fd.kfparams in
-    ktype fd.kfret ^ " " ^ kfn fd.kfname ^ "( " ^ String.concat " , " (List.map pparam ps_) ^ " )" in
+    (match (if defs then pa.kpd else None) with Some z -> " = " ^ pe (Hashtbl.create 1) (match pa.kpk with KLong | KInt -> KNum z | k -> KLit (k, z)) | None -> "") in
+  let sig_of ?(defs = true) fd = let ps_ = if fd.kfmeth then List.tl fd.kfparams else fd.kfparams in
+    ktype fd.kfret ^ " " ^ kfn fd.kfname ^ "( " ^ String.concat " , " (List.map (pparam defs) ps_) ^ " )" in
   let pfunc ind fd =
     add ind; add (sig_of fd); add " {\n";
     let env = env_of fd.kfparams fd.kfbody in
@@ -281,7 +281,7 @@ let print_kprog (p : kprog) : string =
   List.iter (fun (g, z) -> add ("long " ^ kvar g ^ " = " ^ zs z ^ " ;\n")) p.kpglob;
   let meths = List.filter (fun fd -> fd.kfmeth) p.kpfuncs in
   if meths <> [] then begin
-    add "interface I0 {\n"; List.iter (fun fd -> add ("  " ^ sig_of fd ^ " ;\n")) meths; add "} ;\n";
+    add "interface I0 {\n"; List.iter (fun fd -> add ("  " ^ sig_of ~defs:false fd ^ " ;\n")) meths; add "} ;\n";
     add "impl I0 for S0 {\n"; List.iter (pfunc "  ") meths; add "} ;\n"
   end;
   List.iter (fun fd -> if not fd.kfmeth then pfunc "" fd) p.kpfuncs;
